@@ -90,6 +90,9 @@ type Program struct {
 	StopOnSendErr bool
 	// Retain keeps references (no clones) to everything received.
 	Retain bool
+	// ReturnFirstRecvErr makes the handler return, once its steps are done, the
+	// first receive error it saw (other than end of stream).
+	ReturnFirstRecvErr bool
 	// OnUnaryRequest, if set, is called by the unary handler with the very
 	// request object it was given, before the steps run.
 	OnUnaryRequest func(ctx context.Context, req *connect.Request[Msg])
@@ -305,6 +308,14 @@ func (c *Call) run(ctx context.Context, kind Kind, spec connect.Spec, hc hconn) 
 	}
 	if c.Prog.ReturnCtxErr {
 		return ctx.Err()
+	}
+	if c.Prog.ReturnFirstRecvErr {
+		l.mu.Lock()
+		first := l.RecvErr
+		l.mu.Unlock()
+		if first != nil && !isEOF(first) {
+			return first
+		}
 	}
 	return c.Prog.Return
 }
